@@ -42,6 +42,8 @@ label(struct func *f, struct scope *s)
 		if (!peek(TCOLON))
 			return false;
 		g = funcgoto(f, name);
+		if (g->defined)
+			error(&tok.loc, "duplicate label '%s'", name);
 		g->defined = true;
 		funclabel(f, g->label);
 		break;
